@@ -208,8 +208,8 @@ def ob_files(order, max_passes, n_cores, nfiles):
 
 HASHSEED_PROGRAMS = [
     # two overused constants that get numbered names (set of AST nodes hashed by address)
-    "def f():\n" + "".join("    a%d = (1000001, 1000002, 1000003, 1000004)\n    b%d = {'k1': 2000001, 'k2': 2000002, 'k3': 3}\n" % (i, i) for i in range(6))
-    + "    return a0, b0, a5, b5\n\n\nprint(f())\n",
+    "".join("print((1000001, 1000002, 1000003, 1000004), {'k1': 2000001, 'k2': 2000002, 'k3': %d - %d}, [3000001, 3000002, 3000003, 3000004, 3000005])\n" % (i, i)
+            for i in range(6)),
     # one string value with two spellings in the original (restoration of the original spelling)
     "a = 'spam eggs'\nb = \"spam eggs\"\nc = 'x'\nif c == None:\n    print(a, b, 'spam eggs')\n",
     # order-dependent narrowing over a set of condition nodes
@@ -229,12 +229,16 @@ def ob_hashseed():
 
     from vk.common import REPO
 
-    code = "import sys, pyrefact; sys.stdout.write(pyrefact.format_code(sys.stdin.read()))"
+    # besides the string hash seed the memory layout is varied: unrelated objects that stay alive while formatting
+    # shift the addresses of the nodes parsed later (sets of ast nodes iterate in address order)
+    code = ("import sys, ast, os; k = int(os.environ['PYTHONHASHSEED']); "
+            "junk = [ast.parse('x_%d = %d' % (i, i)) for i in range(k * 7)] + [[object() for _ in range(k * 13)]]; "
+            "import pyrefact; sys.stdout.write(pyrefact.format_code(sys.stdin.read()))")
     bad = []
     n = 0
     for prog in HASHSEED_PROGRAMS:
         outs = set()
-        for seed in ("0", "1", "2", "3", "4", "5"):
+        for seed in ("0", "1", "2", "3", "5", "8", "13", "21"):
             env = dict(os.environ, PYTHONHASHSEED=seed)
             env["PYTHONPATH"] = REPO
             p = subprocess.run([sys.executable, "-c", code], input=prog, capture_output=True, text=True, env=env, timeout=120)
